@@ -818,6 +818,25 @@ func (v *valmon) directedMuts(cs consensus.State, orig *types.Block) []mut {
 			}})
 		}
 	}
+	if !v1ok {
+		// past the require height a block still decodes with v1 transactions in it; callers hand over either an
+		// empty supplement or one entry per transaction (validateAll offers both)
+		for _, tv := range []struct {
+			s   string
+			txn types.Transaction
+		}{
+			{"arbitrary-data-only", types.Transaction{ArbitraryData: [][]byte{[]byte("v1 after the require height")}}},
+			{"fee-only", types.Transaction{MinerFees: []types.Currency{types.NewCurrency64(1)}}},
+			{"siacoin-input-of-unknown-parent", types.Transaction{SiacoinInputs: []types.SiacoinInput{{ParentID: types.SiacoinOutputID{1}}}, SiacoinOutputs: []types.SiacoinOutput{{Value: types.NewCurrency64(1), Address: dest}}}},
+			{"storage-proof-of-unknown-contract", types.Transaction{StorageProofs: []types.StorageProof{{ParentID: types.FileContractID{2}}}}},
+		} {
+			tv := tv
+			muts = append(muts, mut{op: "v1-transaction-after-require-height", field: "v1.appended-transaction", val: tv.s, directed: true, noResign: true, f: func(blk *types.Block) bool {
+				blk.Transactions = append(blk.Transactions, chaingen.CloneV1(tv.txn))
+				return true
+			}})
+		}
+	}
 	if v1ok && len(orig.Transactions) > 0 {
 		// IDs of every element an earlier v1 transaction of the block touches, by kind; a later transaction
 		// then names such an ID as a parent of ANOTHER kind
@@ -1531,6 +1550,12 @@ func (v *valmon) validateAll(cs consensus.State, blk *types.Block, mt mut) (out 
 		} else {
 			supp = vbs
 		}
+	}
+	if cs.Index.Height+1 >= c.Net.N.HardforkV2.RequireHeight && len(blk.Transactions) > 0 {
+		// the other supplement shapes a caller may hold at this height
+		consensus.ValidateBlock(cs, *blk, consensus.V1BlockSupplement{})
+		consensus.ValidateBlock(cs, *blk, consensus.V1BlockSupplement{Transactions: make([]consensus.V1TransactionSupplement, len(blk.Transactions))})
+		v.b.Count("post_require_blocks_with_v1_transactions_validated_with_empty_supplement", 1)
 	}
 	if err == nil {
 		// accepted => applicable and revertible
